@@ -551,15 +551,37 @@ class MixedStabilizer(StateRepresentationBase):
         :return: the measurement outcome
         :rtype: list
         """
-        outcomes = []
-        for i, (p_i, t_i) in enumerate(self._mixture):
-            tableau, outcome, x_p = sfc.z_measurement_gate(
-                t_i, qubit_position, measurement_determinism=measurement_determinism
-            )
-            outcomes.append(outcome)
-            self._mixture[i] = (p_i, tableau)
-
-        return outcomes
+        # joint measurement of sum_i p_i rho(T_i): one outcome for the whole mixture, drawn from
+        # P(o) = sum_i p_i P_i(o); every branch is projected on that outcome (weight p_i P_i(o)), branches that
+        # cannot give it are dropped, and the total weight (photon survival probability) is kept.
+        cand = {0: [], 1: []}
+        for p_i, t_i in self._mixture:
+            for o in (0, 1):
+                t_o, out_o, x_p = sfc.z_measurement_gate(
+                    t_i.copy(), qubit_position, measurement_determinism=o
+                )
+                if x_p != 0:  # random in this branch: probability 1/2 each
+                    cand[o].append((p_i / 2, t_o))
+                elif out_o == o:  # deterministic, this outcome
+                    cand[o].append((p_i, t_o))
+        weight = {o: sum(p for p, _ in cand[o]) for o in (0, 1)}
+        total = weight[0] + weight[1]
+        if measurement_determinism == "probabilistic":
+            outcome = int(np.random.random() * total >= weight[0]) if total > 0 else 0
+        elif measurement_determinism == 1:
+            outcome = 0 if np.isclose(weight[1], 0.0) else 1
+        else:
+            outcome = 1 if np.isclose(weight[0], 0.0) else 0
+        if weight[outcome] > 0:
+            self._mixture = [
+                (p * total / weight[outcome], t) for p, t in cand[outcome]
+            ]
+        else:  # a mixture of total weight 0 (every photon lost): keep the branches, the state is 0 anyway
+            self._mixture = [
+                (0.0 * p_i, sfc.z_measurement_gate(t_i, qubit_position, measurement_determinism=outcome)[0])
+                for p_i, t_i in self._mixture
+            ]
+        return [outcome] * len(self._mixture)
 
     def apply_hadamard(self, qubit_position):
         """
